@@ -30,7 +30,9 @@ ASSUMPTIONS = [
 BUDGET = {'quick': dict(examples=2400, shards=16, seconds=70),
           'thorough': dict(examples=60000, shards=16, seconds=1200)}
 
-STR_POOL = ['a', 'a0', 'a00', 'a1', 'ab', 'abc', 'b', 'B', 'a ', 'é', 'z', '', '0', '00', 'f', 'ff', 'a\U0001F600', 'aé', '~', 'a~']
+STR_POOL = ['a', 'a0', 'a00', 'a1', 'ab', 'abc', 'b', 'B', 'a ', 'é', 'z', '', '0', '00', 'f', 'ff', 'a\U0001F600', 'aé', '~', 'a~',
+            # text that differs only beyond 255 / 300 characters; text that is not in Unicode normal form C
+            'p' * 300 + 'b', 'p' * 300 + 'a', 'p' * 255 + 'z', 'p' * 255 + 'y', 'e\u0301', 'f', '\u212b', '\u00c5', '\u2126', '\u03a9', 'e\u0300x']
 
 
 def numbers():
@@ -82,7 +84,7 @@ def small_case(draw):
     return {'size': 'small', 'kind': kind, 'spec': spec, 'rows': rows,
             'batch': draw(st.sampled_from([1, 2, 7, 1000])), 'batch2': draw(st.sampled_from([1, 2, 7, 1000])),
             # the same step also sorts an earlier resource whose same-named key fields hold text
-            'companion': draw(st.booleans())}
+            'companion': draw(st.booleans()), 'resort': draw(st.integers(0, 3)) == 0}
 
 
 @st.composite
@@ -250,6 +252,24 @@ def check(case, ctx):
     if [r['_i'] for r in rev] != [r['_i'] for r in reversed(fwd)]:
         raise Violation('reverse-is-not-exact-reverse', {'forward': [r['_i'] for r in fwd][:40],
                                                         'reverse': [r['_i'] for r in rev][:40]})
+    # 3b. sorting, disturbing the order, and sorting again with the very same key gives a sorted resource again
+    if case.get('resort') and case['kind'] != 'callable':
+        flds_ = [{'name': '_i', 'type': 'integer'}, {'name': 'n1', 'type': 'any'}, {'name': 'n2', 'type': 'any'},
+                 {'name': 'n 3', 'type': 'any'}, {'name': 'n-4', 'type': 'any'}, {'name': 's', 'type': 'string'},
+                 {'name': 'i', 'type': 'integer'}, {'name': 'pl', 'type': 'any'}]
+
+        def rev(rows):
+            yield from reversed(list(rows))
+        try:
+            _d, out2 = run_steps([dataflows.sort_rows(build_key(case['kind'], case['spec'])), rev,
+                                  dataflows.sort_rows(build_key(case['kind'], case['spec']))],
+                                 gen.descriptor_of([{'name': 'res1', 'fields': flds_, 'rows': rows}]), [rows])
+        except Exception as e:
+            raise unexpected(e, 'sort / reverse / sort')
+        for a, b in zip(out2[0], out2[0][1:]):
+            if keyed[a['_i']][0] > keyed[b['_i']][0]:
+                raise Violation('second-sort-with-the-same-key-leaves-rows-unsorted', {'first': a, 'then': b, 'key': case['spec']})
+        classes.append('sorted-twice')
     # 4. independent of batch size
     if fwd2 is not None and [r['_i'] for r in fwd2] != [r['_i'] for r in fwd]:
         raise Violation('depends-on-batch-size', {'batch': case['batch'], 'batch2': case['batch2']})
